@@ -17,15 +17,15 @@ HARNESSES = {
 def _poly(mode):
     def runs(tier):
         if tier == "quick":
-            return [{"harness": "poly", "args": ["--mode", mode, "--depth", "3" if mode == "C01" else "2"], "budget": 420}]
+            return [{"harness": "poly", "args": ["--mode", mode, "--depth", "3" if mode == "C01" else "2", "--pool", "24" if mode == "C01" else "36"], "budget": 270}]
         if mode == "C01":
             return [{"harness": "poly", "args": ["--mode", mode, "--depth", "3", "--all-states"], "budget": 3000}]
         return [{"harness": "poly", "args": ["--mode", mode, "--depth", "3"], "budget": 3000}]
     return runs
 
 CHECKS = {
-    "C01": {"runs": _poly("C01"), "level": "model_checking", "deadline": {"quick": 420, "thorough": 3000}},
-    "C02": {"runs": _poly("C02"), "level": "model_checking", "deadline": {"quick": 420, "thorough": 3000}},
+    "C01": {"runs": _poly("C01"), "level": "model_checking", "deadline": {"quick": 270, "thorough": 3000}},
+    "C02": {"runs": _poly("C02"), "level": "model_checking", "deadline": {"quick": 270, "thorough": 3000}},
 }
 
 
